@@ -139,9 +139,9 @@ PROPS = {
         trusted_base=["pkg/symbol/table.go, symbol.go and the Link/Unlink/close-hook behaviour of pkg/port transcribed by hand into theories/Table/Table.v (Go map iteration order fixed; observables compared as sets / per-symbol sequences)", COMMON_MODEL],
     ),
     "C07": dict(
-        level_text="PARTIAL proof. Proved in Coq: the notifications of one removal are the unload notifications followed by the node close; the table invariant of C06 holds in every reachable state. Not proved: 'active = reference closure present' and strict load/unload alternation; these are evaluated after every operation of every generated history (shared targets, chains, cycles, dangling references, replacements) on the implementation by a Go oracle that recomputes the closure from the specs, and against the model (active sets and per-instance notification sequences must coincide).",
-        level_note="Partial: the closure characterisation rests on differential testing against the model and a direct oracle. Trusted as C06.",
-        technique="Coq lemmas on the event structure + vm_compute correspondence + direct closure/alternation oracle",
+        level_text="Coq theorems, one part PARTIAL. Proved for every table state: the activation test (isActivated: depth-first walk with a visited set; fuel shown sufficient) decides exactly 'the reference closure is present' (every symbol reachable through resolved port references has a node and all its references resolve to present symbols of its namespace); the list a load/unload walks (Table.linked) holds exactly the symbols that reach the start symbol through the reference index, cycles included; hence a load (unload) whose flows succeed notifies EXACTLY the walked symbols whose closure is present, and hooks never fire for a symbol whose closure is incomplete; within one removal the unload notifications precede the node close; the table invariant of C06 holds in every reachable state. PARTIAL: that the reference index is the reverse of the resolved port references in every reachable state - hence that symbols an operation does not walk keep their status, and the strict load/unload alternation - is not proved; it is evaluated after every operation of every generated history (shared targets, chains, cycles, dangling references, replacements) on the implementation by a Go oracle that recomputes the closure from the specs, and against the model (active sets and per-instance notification sequences must coincide).",
+        level_note="Partial as stated: the cross-operation half of 'exactly' rests on differential testing against the model and a direct oracle. Trusted as C06.",
+        technique="Coq proofs (DFS closure test, Kahn walk membership, exact notification set of one operation, event structure) + vm_compute correspondence + direct closure/alternation oracle",
         quick_n=300, thorough_n=8000, shard=20, mismatch_is_failure=True,
         assumptions=["one table operation at a time (C20)", "hooks succeed (failing lifecycle flows are C08)"],
         trusted_base=["pkg/symbol/table.go, symbol.go and the Link/Unlink/close-hook behaviour of pkg/port transcribed by hand into theories/Table/Table.v (Go map iteration order fixed; observables compared as sets / per-symbol sequences)", COMMON_MODEL],
